@@ -1057,3 +1057,55 @@ def rule_sibling_randomness(ctx, cfg='prod-all', table=SIBLING_COMMITMENTS):
             ok = bool(da - db) and bool(db - da)
             yield Ob('RF-G2', '%s#independent:%s/%s' % (fn, fa, fb), ok, 'each of the two commitments receives a random draw of its own', b.span,
                      fact={fa: sorted((l, c) for l, c, _ in da), fb: sorted((l, c) for l, c, _ in db)}, expected='a private draw on each side')
+
+
+# ---------------------------------------------------------------------------------- bases are selected by attribute position
+def rule_bases_by_attribute_position(ctx, cfg='prod-all', scope=('cl03::sigma_protocols::', 'cl03::proof::', 'cl03::commitment::')):
+    """Attribute i is committed and signed under base number i (a_i, g_i).  Inside a loop that walks the list of hidden positions, a base must be
+    selected by the *element* of that list (the attribute position), never by the running position inside the list (the cursor that
+    selects the per-hidden-attribute vectors omega / d / proofs): `g_bases.get(idx)` pairs the k-th hidden attribute with base k instead of base i_k
+    and agrees with the commitment only when the hidden positions are a prefix 0..k."""
+    prog, eng, za = ctx.prog(cfg), ctx.eng(cfg), ctx.zone(cfg)
+    n = 0
+    for p, b in sorted(prog.bodies.items()):
+        if b.from_expansion or not p.startswith(scope):
+            continue
+        owner = b if b.kind != 'Closure' else prog.bodies.get(b.j.get('parent_fn', ''), b)
+        kidx = None
+        for k in range(1, owner.arg_count + 1):
+            nm = owner.local_name(k) or ''
+            if 'unrevealed' in nm and 'index' in nm and 'usize' in owner.local_ty(k):
+                kidx = k
+        if kidx is None or b.kind == 'Closure':
+            continue
+        fd = eng.fndep(p)
+        zf = za.zf(p)
+        # loops that walk the hidden-position list
+        walk_loops = []
+        for h, blocks in b.natural_loops():
+            for x in blocks:
+                t = b.blocks[x]['term']
+                if t['k'] == 'call' and (t.get('callee') or '') == 'std::iter::Iterator::next' and t['args'] and t['args'][0]['k'] in ('copy', 'move'):
+                    at = fd.read_op(t['args'][0])
+                    if any(strip(a)[0] == 'p' and strip(a)[1] == kidx and a[0] not in ('len', 'narrow') for a in at):
+                        walk_loops.append(blocks)
+        cnt = {}
+        for bi, t in b.calls():
+            cal = t.get('callee') or ''
+            if cal not in ('core::slice::<impl [T]>::get', 'std::vec::Vec::<T, A>::get', 'std::ops::Index::index') or len(t['args']) != 2 or t['args'][0]['k'] not in ('copy', 'move'):
+                continue
+            root, path = fd.resolve_place(t['args'][0]['pl'])
+            nm = (b.local_name(root) or '') + ''.join('.' + str(x) for x in path)
+            if not ('g_bases' in nm or nm.startswith('a_bases') or nm.endswith('bases.0')):
+                continue
+            if not any(bi in bl for bl in walk_loops):
+                continue
+            n += 1
+            at = fd.read_op(t['args'][1])
+            by_elem = any(strip(a)[0] == 'p' and strip(a)[1] == kidx and a[0] not in ('len', 'narrow') for a in at)
+            cnt[nm] = cnt.get(nm, 0) + 1
+            yield Ob('RF-B', '%s#base-by-position:%s[%d]' % (p, nm, cnt[nm]), by_elem,
+                     'inside the walk over the hidden positions a base is selected by the attribute position (the list element), not by the running position',
+                     '%s L%s' % (b.file(), t.get('line')), fact={'container': nm, 'index_depends_on_list_elements': by_elem, 'index': fmt_atoms(b, at)[:5]},
+                     expected='index computed from an element of the hidden-position list')
+    yield Ob('RF-B', 'cl03#base-selections', n >= 6, 'base selections inside walks over the hidden positions', '', fact=n, expected='>= 6', nontrivial=False)
